@@ -166,6 +166,17 @@ async def _drive_data(rig, case, out):
                 return VERDICTS[vname]
         return validator
 
+    wire = al.data_wire(DATA_NAME, DATA_CONTENT)
+    if mode == 'lib-default-bad':
+        b = bytearray(wire)
+        b[-1] ^= 0x01          # last byte of the DigestSha256 SignatureValue
+        wire = bytes(b)
+    # the Interest names the Data either by its name or by its FULL name (name + implicit SHA-256 digest of the packet)
+    int_name = DATA_NAME
+    if case.get('name_form') == 'full':
+        int_name = enc.Name.normalize(DATA_NAME) + [enc.Component.from_bytes(hashlib.sha256(wire).digest(),
+                                                                               enc.Component.TYPE_IMPLICIT_SHA256)]
+
     for idx, (vname, latency) in enumerate(case['ints']):
         vlog = []
         rec = {'vlog': vlog, 'done': None, 'spec': (vname, latency, case['t_data'])}
@@ -173,15 +184,15 @@ async def _drive_data(rig, case, out):
         kw = dict(lifetime=LIFETIME, nonce=0x0a0b0c00 + idx, can_be_prefix=False)
         try:
             if front == 'v2':
-                coro = rig.app.express(DATA_NAME, None if mode == 'none' else val, **kw)
+                coro = rig.app.express(int_name, None if mode == 'none' else val, **kw)
             else:
                 if mode == 'app-default':
                     rig.app.data_validator = val
-                    coro = rig.app.express_interest(DATA_NAME, validator=None, **kw)
+                    coro = rig.app.express_interest(int_name, validator=None, **kw)
                 elif mode in ('lib-default-good', 'lib-default-bad'):
-                    coro = rig.app.express_interest(DATA_NAME, validator=None, **kw)
+                    coro = rig.app.express_interest(int_name, validator=None, **kw)
                 else:
-                    coro = rig.app.express_interest(DATA_NAME, validator=val, **kw)
+                    coro = rig.app.express_interest(int_name, validator=val, **kw)
         except ValueError:
             if mode == 'none':
                 rec['refused'] = True
@@ -196,11 +207,6 @@ async def _drive_data(rig, case, out):
         ints.append(rec)
     await al.settle(loop)
 
-    wire = al.data_wire(DATA_NAME, DATA_CONTENT)
-    if mode == 'lib-default-bad':
-        b = bytearray(wire)
-        b[-1] ^= 0x01          # last byte of the DigestSha256 SignatureValue
-        wire = bytes(b)
     fields = ([bytes(c) for c in enc.Name.normalize(DATA_NAME)], DATA_CONTENT, 1000)
     await al.sleep_until(loop, case['t_data'])
     try:
@@ -459,6 +465,17 @@ def gen_cases(tier, rng):
     for vname in V1_VERDICTS:
         for lat in (0, 10, 60):
             yield {'part': 'data', 'front': 'v1', 'mode': 'app-default', 't_data': 5, 'ints': [[vname, lat]]}
+    # the same, the Interest naming the Data by its full name (implicit digest): validation is owed all the same
+    for front, verdicts in (('v2', V2_VERDICTS + V2_DATA_ONLY), ('v1', V1_VERDICTS)):
+        for vname in verdicts:
+            for lat in (0, 10, 60):
+                yield {'part': 'data', 'front': front, 'mode': 'own', 't_data': 5, 'ints': [[vname, lat]], 'name_form': 'full'}
+        acc, rej = ('VR.PASS', 'VR.SILENCE') if front == 'v2' else ('True', '0')
+        yield {'part': 'data', 'front': front, 'mode': 'own', 't_data': 5, 'ints': [[acc, 10], [rej, 0]], 'name_form': 'full'}
+    for vname in V1_VERDICTS:
+        yield {'part': 'data', 'front': 'v1', 'mode': 'app-default', 't_data': 5, 'ints': [[vname, 0]], 'name_form': 'full'}
+    for mode in ('lib-default-good', 'lib-default-bad'):
+        yield {'part': 'data', 'front': 'v1', 'mode': mode, 't_data': 5, 'ints': [['True', 0]], 'name_form': 'full'}
     for mode in ('lib-default-good', 'lib-default-bad'):
         yield {'part': 'data', 'front': 'v1', 'mode': mode, 't_data': 5, 'ints': [['True', 0]]}
     yield {'part': 'data', 'front': 'v2', 'mode': 'none', 't_data': 5, 'ints': [['VR.PASS', 0]]}
@@ -510,7 +527,7 @@ def run(tier: str, seed: int, shard: tuple) -> dict:
         'distinct_nontrivial': len(distinct),
         'rule': "part 'data': {appv2: 5 ValidResult values + 5 values of other types + a validator raising TimeoutError; legacy: 8 truthy/falsy values} x "
                 "validator latency (before / at / after the 40 ms deadline) x Data arrival time, 1-3 Interests on one "
-                "name each with its own validator, plus default-validator modes; part 'interest': {plain, "
+                "name each with its own validator, plus default-validator modes, the Interest naming the Data by name or by full name (implicit digest); part 'interest': {plain, "
                 "parameterised, signed, signed without parameters} x {digest ok, parameter corrupted, digest corrupted, "
                 "digest missing, signature corrupted with digest re-computed} x validator in force {none, route, "
                 "application-wide, library default} x verdict x latency x {route /p, nested route /p/q}. Every case "
